@@ -521,6 +521,49 @@ theorem ebuild_engine_premerge_hardens (bu ru bg rg : Nat) (image c : CSet) (him
   rw [hdec] at h
   exact ⟨post, hstd, hno, heq ▸ h.1, h.2⟩
 
+/-- **What happens to an entry depends on that entry alone** — not on which other entries the set holds, in particular
+not on other names of the same inode (entries with the same `payload`: `dev`/`inode`, data, mtime): for every contents set
+with distinct locations that contains `e`, the stage's result holds `hardenWith ts e` at `e`'s location and nothing else
+there, and that entry is hardened.  Hence two sets that both contain `e` give the same entry at `e.loc`, and every name
+of a hardlinked file is re-owned and stripped on its own. -/
+theorem outcome_independent_of_other_entries (bu ru bg rg : Nat) (ts : List Trigger) (hs : Standard bu ru bg rg ts)
+    (c : CSet) (hnd : (c.map (·.loc)).Nodup) (e : Entry) (he : e ∈ c) :
+    hardenWith ts e ∈ runTriggers ts c ∧
+    (∀ e' ∈ runTriggers ts c, e'.loc = e.loc → e' = hardenWith ts e) ∧
+    Hardened bu ru bg rg (decide (Trigger.detectWorldWritable true ∈ ts)) e (hardenWith ts e) ∧
+    (∀ c' : CSet, (c'.map (·.loc)).Nodup → e ∈ c' →
+      ∀ e' ∈ runTriggers ts c', e'.loc = e.loc → e' ∈ runTriggers ts c) := by
+  have hloc : ∀ x : Entry, (hardenWith ts x).loc = x.loc := fun x =>
+    fold_inv (fun y => y.loc = x.loc) ts (fun t _ y hy => by rw [step_loc]; exact hy) x rfl
+  have key : ∀ (d : CSet), (d.map (·.loc)).Nodup → e ∈ d →
+      hardenWith ts e ∈ runTriggers ts d ∧ ∀ e' ∈ runTriggers ts d, e'.loc = e.loc → e' = hardenWith ts e := by
+    intro d hd hed
+    rw [(premerge_pointwise ts hs.noReset d hd).1]
+    refine ⟨List.mem_map.2 ⟨e, hed, rfl⟩, ?_⟩
+    intro e' he' hl
+    obtain ⟨x, hx, rfl⟩ := List.mem_map.1 he'
+    rw [hloc] at hl
+    have : x = e := by
+      clear he'
+      induction d with
+      | nil => cases hx
+      | cons y ys ih =>
+        simp only [List.map_cons, List.nodup_cons, List.mem_map, not_exists, not_and] at hd
+        rcases List.mem_cons.1 hx with rfl | hx' <;> rcases List.mem_cons.1 hed with rfl | he''
+        · rfl
+        · exact absurd hl.symm (hd.1 e he'')
+        · exact absurd hl (hd.1 x hx')
+        · exact ih hd.2 he'' hx'
+    rw [this]
+  refine ⟨(key c hnd he).1, (key c hnd he).2, harden_spec bu ru bg rg ts hs e, ?_⟩
+  intro c' hnd' he' e' hm hl
+  rw [(key c' hnd' he').2 e' hm hl]
+  exact (key c hnd he).1
+
+example : (⟨0, "/usr/bin/gunzip".toList, 0o755, 0, 0, 1⟩ : Entry) ∈
+    runTriggers [.fixUid 250 0, .fixSetBits, .fixGid 250 0, .detectWorldWritable false]
+      [⟨0, "/usr/bin/gzip".toList, 0o755, 250, 250, 1⟩, ⟨0, "/usr/bin/gunzip".toList, 0o755, 250, 250, 1⟩] := by decide
+
 /-- the executable judge the check applies to the real code's before/after pairs decides exactly `Hardened` -/
 theorem spec_checker_sound (bu ru bg rg : Nat) (fp : Bool) (e e' : Entry) :
     hardenedB bu ru bg rg fp e e' = true ↔ Hardened bu ru bg rg fp e e' := hardenedB_iff' bu ru bg rg fp e e'
